@@ -786,7 +786,7 @@ static struct expr *
 builtinfunc(struct scope *s, enum builtinkind kind)
 {
 	struct expr *e, *toeval;
-	struct type *t;
+	struct type *t, *t2;
 	struct member *m;
 	char *name;
 	unsigned long long offset;
@@ -822,6 +822,8 @@ builtinfunc(struct scope *s, enum builtinkind kind)
 		break;
 	case BUILTINOFFSETOF:
 		t = typename(s, NULL, NULL);
+		if (!t)
+			error(&tok.loc, "expected type name in __builtin_offsetof");
 		expect(TCOMMA, "after type name");
 		name = expect(TIDENT, "after ','");
 		if (t->kind != TYPESTRUCT && t->kind != TYPEUNION)
@@ -836,8 +838,13 @@ builtinfunc(struct scope *s, enum builtinkind kind)
 		break;
 	case BUILTINTYPESCOMPATIBLEP:
 		t = typename(s, NULL, NULL);
+		if (!t)
+			error(&tok.loc, "expected type name in __builtin_types_compatible_p");
 		expect(TCOMMA, "after type name");
-		e = mkconstexpr(&typeint, typecompatible(t, typename(s, NULL, NULL)));
+		t2 = typename(s, NULL, NULL);
+		if (!t2)
+			error(&tok.loc, "expected type name in __builtin_types_compatible_p");
+		e = mkconstexpr(&typeint, typecompatible(t, t2));
 		break;
 	case BUILTINUNREACHABLE:
 		e = mkexpr(EXPRBUILTIN, &typevoid, NULL);
@@ -852,6 +859,8 @@ builtinfunc(struct scope *s, enum builtinkind kind)
 			e->base = mkunaryexpr(TBAND, e->base);
 		expect(TCOMMA, "after va_list");
 		e->type = typename(s, &e->qual, &toeval);
+		if (!e->type)
+			error(&tok.loc, "expected type name in __builtin_va_arg");
 		e->toeval = toeval;
 		break;
 	case BUILTINVACOPY:
